@@ -98,8 +98,13 @@ def build(ck):
     def comp(args):
         name, flags = args
         return ck.cc(os.path.join(ck.bdir, name), [hsrc] + CRYPTO_SRCS, flags=flags)
-    with ThreadPoolExecutor(3) as ex:
+    def comp_fast(_):
+        # the long-message family hashes gigabytes: same harness, optimised and without sanitizers
+        return ck.cc(os.path.join(ck.bdir, "hlong"), [hsrc] + CRYPTO_SRCS, san=False)
+    with ThreadPoolExecutor(4) as ex:
+        fl = ex.submit(comp_fast, None)
         hs = list(ex.map(comp, [("h64", []), ("hsmall", ["-DKECCAK_SMALL"]), ("h32", ["-DKECCAK_32BIT"])]))
+        ck.c05_hlong = [fl.result()]
     return [[h] for h in hs], [ck.driver_path("drv_c05")]
 
 
@@ -337,6 +342,76 @@ def gen_sponge_cases(ck, rng):
     return cases
 
 
+def gen_duplex_boundary_cases(ck, rng):
+    """encrypt / decrypt whose total length is exactly k x rate, in 2- and 3-splits, IMMEDIATELY followed by
+    an operation that relies on `pos < rbytes` (1-byte pad, rewind, forget) and then by squeezing, so that a
+    context left at the end of a block in a different internal form shows in the squeezed bytes; for every
+    capacity.  (Internal-only differences - pos, state dump - stay behind ` ## `.)"""
+    cases = []
+    for cap in range(8, 1600, 8):
+        r = (1600 - cap) // 8
+        for op in ("k.enc", "k.dec", "k.sqx", "k.abs"):
+            for k in (1, 2):
+                total = k * r
+                if qk(ck):
+                    cuts = [[], [1], [r - 1] if r > 1 else [], [rng.below(total + 1)], [rng.below(total + 1), rng.below(total + 1)]]
+                    if k == 2:
+                        cuts += [[r], [r + 1]]
+                    if op in ("k.sqx", "k.abs"):
+                        cuts = cuts[:2]
+                else:
+                    cuts = [[]] + [[i] for i in range(0, total + 1, 1 if k == 1 else 3)] + \
+                           [[rng.below(total + 1), rng.below(total + 1)] for _ in range(4)]
+                    if op in ("k.sqx", "k.abs"):
+                        cuts = cuts[:1] + cuts[1::7]
+                seen = set()
+                for cs in cuts:
+                    key = tuple(sorted(set(cs)))
+                    if key in seen:
+                        continue
+                    seen.add(key)
+                    data = rng.bytes(total)
+                    pre = ["k.init %d" % cap]
+                    if rng.chance(1, 2):
+                        pre.append("k.abs " + vf.hexs(rng.bytes(r)))      # a full block first: state is not all-zero
+                    body = [op + " " + vf.hexs(c) for c in split_at(data, cs) if len(c) or not cs]
+                    follow = rng.choice([
+                        ["k.pad %02x" % rng.choice([1, 6, 0x1f]), "k.sqz %d" % rng.choice([1, 16, r, r + 1])],
+                        ["k.pad %02x" % rng.choice([1, 6, 0x1f]), "k.sqz %d" % rng.choice([16, 32])],
+                        ["k.rew", "k.sqz %d" % rng.choice([8, r, r + 3])],
+                        ["k.fgt", "k.sqz %d" % rng.choice([8, r + 1]), "k.sqz 3"],
+                        ["k.rew", "k.enc " + vf.hexs(rng.bytes(9)), "k.pad 01", "k.sqz 16"],
+                        ["k.fgt", "k.abs " + vf.hexs(rng.bytes(5)), "k.pad 01", "k.sqz 16"],
+                    ]) if not qk(ck) else None
+                    if follow is None:
+                        follow = [["k.pad 01", "k.sqz 16"], ["k.rew", "k.sqz %d" % (r + 1)], ["k.fgt", "k.sqz %d" % (r + 1)],
+                                  ["k.pad 1f", "k.sqz %d" % r]][len(cases) % 4]
+                    cases.append(pre + body + follow + ["k.dump"])
+    return cases
+
+
+LONG_ORACLE = "search/monitor oracle: hashlib (OpenSSL); not part of any theorem"
+
+
+def gen_long_cases(ck, rng):
+    """messages whose BIT count crosses 2^32 (2^29 bytes and more): one op per case, the harness feeds a
+    periodic message in 1 MiB updates; compared with hashlib (search oracle), not with the Lean model
+    (a list-based model cannot hash 512 MiB in the time budget)"""
+    P29, P30 = 1 << 29, 1 << 30
+    cases = []
+    for name in ("md5", "sha1", "sha224", "sha256"):
+        for L in (P29 - 1, P29, P29 + 1, P29 + 55 + 64 * rng.below(100), P30 + 5):
+            cases.append(["d.long %s %d %d" % (name, L, rng.below(256))])
+    for name in ("sha384", "sha512"):
+        for L in (P29, P29 + 111 + 128 * rng.below(100), P30 + 5):
+            cases.append(["d.long %s %d %d" % (name, L, rng.below(256))])
+    cases.append(["d.long sha3_256 %d %d" % (P29 + 1 + rng.below(1000), rng.below(256))])
+    # short control lengths through the same op (so that the op itself is exercised in every run of it)
+    for name in ("md5", "sha1", "sha256", "sha512", "sha3_256"):
+        cases.append(["d.long %s %d %d" % (name, 3 * 1048576 + 77, rng.below(256))])
+    return cases
+
+
 def gen_perm_cases(ck, rng):
     states = [bytes(200), bytes([0xff]) * 200, bytes(range(200)), bytes([0xaa, 0x55] * 100)]
     nbits = sc(ck, 64, 1600)
@@ -509,6 +584,7 @@ def run(ck):
         "transcription of RFC 1321 / FIPS 180-4 / FIPS 202 / ChaCha20 round functions into "
         "lean/Usual/C05 (pinned by the standards' vectors in UsualProofs/C05/Vectors.lean)",
         "third opinion only: Python hashlib/hmac (OpenSSL) and checks/c05_ref.py ChaCha20",
+        "long-message family (>= 2^29 bytes): " + LONG_ORACLE,
     ]
     ck.cov["partial"] = [
         "compression functions of MD5/SHA-1/SHA-2 and the ChaCha block function equal the standards by transcription "
@@ -559,6 +635,20 @@ def run(ck):
     for cs in (md, kd, hm_md, hm_k, shk, spg, prm, cha, hist_md, hist_k):
         op_histogram(ck, cs)
 
+    dup = gen_duplex_boundary_cases(ck, rng)
+    op_histogram(ck, dup)
+    par_compare(ck, h64, dcmd, dup, "sponge-block-boundary-64bit")
+    par_compare(ck, hsmall, dcmd, dup, "sponge-block-boundary-small")
+    par_compare(ck, h32, dcmd, dup, "sponge-block-boundary-32bit")
+    # long messages (bit count >= 2^32): always in the thorough tier; in the quick tier only as part of the
+    # search for a failing input when a C05 bridge / proof / table tie no longer checks
+    ck.cov["long_message_family_run"] = not qk(ck)
+    if not qk(ck):
+        ck.cov["long_message_oracle"] = LONG_ORACLE
+        longc = gen_long_cases(ck, rng)
+        op_histogram(ck, longc)
+        par_compare(ck, ck.c05_hlong, ref, longc, "long-messages-reference-hashlib", shard=1, timeout=3000)
+        ck.cov["long_message_bytes"] = sum(int(c[0].split()[2]) for c in longc)
     par_compare(ck, h64, dcmd, md, "md-digests")
     par_compare(ck, h64, dcmd, hm_md, "hmac-md")
     par_compare(ck, h64, dcmd, hist_md, "reset-histories-md")
@@ -596,6 +686,8 @@ def replay(ck, path):
         h = hcmds[1]
     if "32bit" in label:
         h = hcmds[2]
+    if "long-messages" in label:
+        h = ck.c05_hlong
     d = dcmd
     if "reference" in label:
         d = [sys.executable, os.path.join(vf.VERIF, "checks", "c05_ref.py")]
